@@ -335,6 +335,11 @@ def sequence(B, G, kind, n, h, a):
         again = st.generate_hilbert_space(n)
         st.sample(2, initial_state=again, overwrite=True)
         out = SigmaZ().statistics(st, num_samples=4, num_chains=2, burn_in=1, steps=1)
+        # an evaluation handed the caller's chains with overwrite=False leaves them as they were (the next seeded run reuses them)
+        mine = C.rows_tensor(B, [C.space_rows(n)[-1], C.space_rows(n)[0]])
+        mine_before = B.scalars(mine).copy()
+        SigmaZ().statistics(st, num_samples=2, burn_in=1, steps=1, initial_state=mine, overwrite=False)
+        G.fact("run%d.statistics(overwrite=False).leaves_initial_state" % run, bool(np.all(B.scalars(mine) == mine_before)), "caller's initial_state after statistics")
         runs.append((rec, out))
     ra, rb = runs[0][0], runs[1][0]
     G.fact("same_number_of_draws", len(ra) == len(rb) and len(ra) > 0, "%d vs %d Bernoulli calls" % (len(ra), len(rb)))
@@ -409,6 +414,7 @@ def hash_salt(I):
 
 def specs(tier):
     return [dict(name="seeding-all-seeds", module="checks.c14", function="seeding_pf", kwargs={}, inputs=dict(seed=("int", -(2 ** 31), 2 ** 63 - 1), gpu=("int", 0, 1))),
+            dict(name="seeding-small-seeds", module="checks.c14", function="seeding_pf", kwargs={}, inputs=dict(seed=("int", -4, 4), gpu=("int", 0, 1))),
             dict(name="interpreter-hash-salts", module="checks.c14", function="hash_salt", kwargs={}, inputs=dict(salt=("int", 1, 3 if tier == "quick" else 8)))]
 
 
